@@ -665,7 +665,7 @@ def run_linearizability(profile, seed, stats, runs_per_prog=6, workers=16):
     """C03: for each small program, the outcome of every scheduled run of the real crate must be one of the
     outcomes of the Lean model under all interleavings of its atomic steps (specexplore)."""
     rng = random.Random(seed * 7919 + 13)
-    progs = [gen_program(profile, rng, i) for i in range(profile.n)]
+    progs = list(getattr(profile, "templates", [])) + [gen_program(profile, rng, i) for i in range(profile.n)]
     fails = []
 
     def one(prog):
